@@ -40,7 +40,7 @@ fn requests(rep: &Rep) -> Vec<(String, OpSpec)> {
     }
     v.push(("sub-up".into(), OpSpec::Subscribe(SubSpec { filters: vec![("f".into(), SubOptSpec::default())], user_props: vec![("k".into(), "v".repeat(200))] })));
     if !rep.quick() {
-        for sz in 0..2100usize {
+        for sz in (0..2100usize).chain((2100..40000).step_by(7)) {
             let q = (sz % 3) as u8;
             v.push((format!("pubsweep{q}-{sz}"), OpSpec::Publish(PubSpec::simple(q, "s", &vec![b'q'; sz]))));
         }
